@@ -12,6 +12,8 @@ pub type SearchResult = Result<Rcvar, JmespathError>;
 
 /// Interprets the given data using an AST node.
 pub fn interpret(data: &Rcvar, node: &Ast, ctx: &mut Context<'_>) -> SearchResult {
+    #[cfg(jmespath_rs_verif)]
+    crate::verif_hooks::point("interpret");
     match *node {
         Ast::Field { ref name, .. } => Ok(data.get_field(name)),
         Ast::Subexpr {
@@ -154,6 +156,8 @@ pub fn interpret(data: &Rcvar, node: &Ast, ctx: &mut Context<'_>) -> SearchResul
             }
             // Reset the offset so that it points to the function being evaluated.
             ctx.offset = offset;
+            #[cfg(jmespath_rs_verif)]
+            crate::verif_hooks::point("call");
             match ctx.runtime.get_function(name) {
                 Some(f) => f.evaluate(&fn_args, ctx),
                 None => {
